@@ -359,6 +359,10 @@ pub fn plan(tier: Tier) -> Plan {
     checks.push(ser::<HistChunk<H2>>("samples", vec![0.5, 1.5, 7.], d));
     checks.push(ser::<HistChunk<average::Histogram10>>("samples", vec![0.5, 4.5, 9.5], d));
     checks.push(ser::<HistChunk<H100>>("samples", vec![0.5, 50.5, 99.5], if q { 3 } else { 4 }));
+    // edge vectors with a repeated edge (a zero-width bin)
+    checks.push(ser::<HistChunkRep<H2>>("repeated-edge", vec![0.5, 1.0, 1.5], d));
+    checks.push(ser::<HistChunkRep<H4>>("repeated-edge", vec![0.5, 1.0, 3.5], d));
+    checks.push(ser::<HistChunkRep<average::Histogram10>>("repeated-edge", vec![0.5, 1.0, 9.5], d));
     Plan {
         rule: "long periodic streams (every word of length <= 3 repeated to n = 200 / 5000) with a checkpoint after EVERY observation, the restored copy carried forward next to the uninterrupted one (Quantile at eight values of p incl. non-dyadic 0.2, 1/3, 0.9, 0.99); AND for every serialisable estimator type: BFS over add(x) (3-value alphabets), merge(collect(w)) for every word w of length <= 2, and checkpoint = serde_json (float_roundtrip) to_string -> from_str replacing the object; at EVERY reachable state (position 0, inside Quantile's <5 phase, between merges) the checkpoint transition is checked differentially: serialising leaves the Debug string unchanged, the restored object's Debug string and every accessor are bit-identical, and every continuation of up to two further operations stays bit-identical on both copies; states whose JSON contains a non-finite field (fresh Min/Max) are outside the statement and counted as trivial".into(),
         assumptions: {
